@@ -117,6 +117,9 @@ struct upipe_audiobar {
     /** inferred padding at end of line */
     uint64_t pad_width;
 
+    /** true if the pipe holds a reference on itself while urefs are buffered */
+    bool buffered;
+
     /** public upipe structure */
     struct upipe upipe;
 };
@@ -157,6 +160,7 @@ static struct upipe *upipe_audiobar_alloc(struct upipe_mgr *mgr,
     struct upipe_audiobar *upipe_audiobar = upipe_audiobar_from_upipe(upipe);
     upipe_audiobar_init_urefcount(upipe);
     upipe_audiobar_init_input(upipe);
+    upipe_audiobar_from_upipe(upipe)->buffered = false;
     upipe_audiobar_init_output(upipe);
     upipe_audiobar_init_ubuf_mgr(upipe);
     upipe_audiobar_init_flow_format(upipe);
@@ -385,7 +389,10 @@ static void upipe_audiobar_input(struct upipe *upipe, struct uref *uref,
         upipe_audiobar_block_input(upipe, upump_p);
         /* Increment upipe refcount to avoid disappearing before all packets
          * have been sent. */
-        upipe_use(upipe);
+        if (!upipe_audiobar_from_upipe(upipe)->buffered) {
+            upipe_audiobar_from_upipe(upipe)->buffered = true;
+            upipe_use(upipe);
+        }
     }
 }
 
@@ -437,14 +444,21 @@ static int upipe_audiobar_check_ubuf_mgr(struct upipe *upipe,
             upipe_audiobar->chan_width, upipe_audiobar->sep_width,
             upipe_audiobar->pad_width);
 
-    bool was_buffered = !upipe_audiobar_check_input(upipe);
+    /* The ubuf manager provider may answer from inside
+     * upipe_audiobar_output_input (a buffered flow definition renews the
+     * request), which runs this function again: keep the pipe until we are
+     * done, and release the reference of upipe_audiobar_input only once. */
+    upipe_use(upipe);
     upipe_audiobar_output_input(upipe);
     upipe_audiobar_unblock_input(upipe);
-    if (was_buffered && upipe_audiobar_check_input(upipe)) {
+    if (upipe_audiobar_from_upipe(upipe)->buffered &&
+        upipe_audiobar_check_input(upipe)) {
         /* All packets have been output, release again the pipe that has been
          * used in @ref upipe_audiobar_input. */
+        upipe_audiobar_from_upipe(upipe)->buffered = false;
         upipe_release(upipe);
     }
+    upipe_release(upipe);
     return UBASE_ERR_NONE;
 }
 
